@@ -26,6 +26,10 @@ type Obligation struct {
 	Cover bool `json:"cover,omitempty"`
 	// Anc: blocks whose facts are relevant (ancestors of the obligation's block, itself included); nil = all
 	Anc map[int]bool `json:"-"`
+	// Focus: tag of the one loop-invariant assumption this obligation most likely needs
+	// ("inv:<loop>:<k>"); the focused query variant drops the other invariant assumptions.
+	Focus    string          `json:"-"`
+	FocusSet map[string]bool `json:"-"` // invariant tags kept in the focused variant
 	// model values of interest: symbol -> description
 	Watch map[string]string `json:"-"`
 }
@@ -260,6 +264,7 @@ func (ft *funcTrans) run() (err error) {
 		t := w.declConst("p_"+prm.Name(), s)
 		ft.vals[prm] = &Val{T: t}
 		ft.env[prm.Name()] = t
+		ft.env[prm.Name()+"0"] = t // entry value (the name itself may be shadowed by a loop phi)
 		ft.env[fmt.Sprintf("arg%d", i)] = t
 		ft.assumeWellTyped(t, ft.entry, "true")
 	}
@@ -440,7 +445,10 @@ func (ft *funcTrans) obligation(kind, name, clause, goal string) *Obligation {
 	}
 	ft.obls = append(ft.obls, o)
 	// later obligations may assume earlier ones
+	saveTag := w.curTag
+	w.curTag = "obl"
 	w.addFact(fmt.Sprintf("(=> %s %s)", r, goal))
+	w.curTag = saveTag
 	return o
 }
 
